@@ -23,6 +23,7 @@ type Val struct {
 	Clo      *closureVal
 	Fn       *ssa.Function
 	ConstLen int64 // known constant length of a slice built from an array (-1 = unknown)
+	IsSet    bool  // spec-level key set (Array K Bool)
 	Untyped  bool  // untyped numeric literal in a spec expression
 	IntVal   int64
 }
@@ -131,6 +132,8 @@ type Frame struct {
 	escaped  map[ssa.Value]ssa.Instruction // first escaping use
 	held     map[*ssa.BasicBlock]map[string]string // lockset per block (C20)
 	defers   []*ssa.Defer
+	lets     map[string]*Val // pre-state lets of the contract (usable in loop invariants)
+	curSt    *State
 }
 
 type retSite struct {
@@ -725,7 +728,12 @@ func (f *Frame) defVal(v ssa.Value, term string) *Val {
 	return x
 }
 
+// exitStateForInv is the state used for "allocated" facts of values that are
+// produced without a heap access (type assertions): the current block state.
+func (f *Frame) exitStateForInv() *State { return f.curSt }
+
 func (f *Frame) encodeBlock(b *ssa.BasicBlock, st *State) {
+	f.curSt = st
 	for _, ins := range b.Instrs {
 		f.curInstr = ins
 		if f.reach[b] == "false" {
@@ -857,6 +865,10 @@ func (f *Frame) encodeInstr(ins ssa.Instruction, st *State) {
 		hn, hs, vn, vs := c.mapHeaps(x.Type())
 		m := x.Type().Underlying().(*types.Map)
 		e.heapSet(st, hn, hs, store(e.heapGet(st, hn, hs), r, fmt.Sprintf("((as const (Array %s Bool)) false)", c.sortOf(m.Key()))))
+		{
+			card := c.declFun(fmt.Sprintf("card$%d", c.typeID(m)), []string{fmt.Sprintf("(Array %s Bool)", c.sortOf(m.Key()))}, sortBV64)
+			c.assert(eq(fmt.Sprintf("(%s ((as const (Array %s Bool)) false))", card, c.sortOf(m.Key())), "#x0000000000000000"))
+		}
 		e.heapSet(st, vn, vs, store(e.heapGet(st, vn, vs), r, fmt.Sprintf("((as const (Array %s %s)) %s)", c.sortOf(m.Key()), c.sortOf(m.Elem()), c.zero(m.Elem()))))
 		f.vals[x] = &Val{T: r, Typ: x.Type(), ConstLen: -1}
 	case *ssa.MakeSlice:
@@ -1266,11 +1278,13 @@ func (f *Frame) encodeTypeAssert(x *ssa.TypeAssert) {
 		okV := &Val{T: c.define(sanitize(f.prefix)+"."+x.Name()+".ok", "Bool", ok), Typ: types.Typ[types.Bool], ConstLen: -1}
 		zero := c.zero(at)
 		rv := &Val{T: c.define(sanitize(f.prefix)+"."+x.Name()+".v", c.sortOf(at), ite(okV.T, res, zero)), Typ: at, ConstLen: -1}
+		f.enc.assumeTypeInv(f.exitStateForInv(), rv.T, at, f.guard())
 		f.vals[x] = &Val{Tup: []*Val{rv, okV}, Typ: x.Type(), ConstLen: -1}
 		return
 	}
 	f.safetyObl("assert", f.srcText(x), ok)
-	f.defVal(x, res)
+	nv := f.defVal(x, res)
+	f.enc.assumeTypeInv(f.exitStateForInv(), nv.T, at, f.guard())
 }
 
 func (f *Frame) encodeMakeSlice(x *ssa.MakeSlice, st *State) {
@@ -1384,6 +1398,13 @@ func (f *Frame) encodeMapUpdate(x *ssa.MapUpdate, st *State) {
 	f.noteMapWrite(st, m, x)
 	hn, hs, vn, vs := c.mapHeaps(x.Map.Type())
 	h := e.heapGet(st, hn, hs)
+	{
+		mt := x.Map.Type().Underlying().(*types.Map)
+		card := c.declFun(fmt.Sprintf("card$%d", c.typeID(mt)), []string{fmt.Sprintf("(Array %s Bool)", c.sortOf(mt.Key()))}, sortBV64)
+		oldK := sel(h, m.T)
+		newK := store(oldK, k.T, "true")
+		c.assert(implies(f.guard(), eq("("+card+" "+newK+")", ite(sel(oldK, k.T), "("+card+" "+oldK+")", "(bvadd ("+card+" "+oldK+") #x0000000000000001)"))))
+	}
 	e.heapSet(st, hn, hs, store(h, m.T, store(sel(h, m.T), k.T, "true")))
 	hv := e.heapGet(st, vn, vs)
 	e.heapSet(st, vn, vs, store(hv, m.T, store(sel(hv, m.T), k.T, v.T)))
